@@ -62,7 +62,24 @@ func systems() []sysgen {
 			}
 			return gen.NPMRange(r)
 		}},
-		{"Maven", resolve.Maven, gen.MavenVer, func(r *rand.Rand, l []Ver) string {
+		{"Maven", resolve.Maven, func(r *rand.Rand) string {
+			s := gen.MavenVer(r)
+			if r.Intn(15) == 0 {
+				// Letters and digits outside ASCII: to Maven every string is a
+				// version; here such characters are qualifier text.
+				switch r.Intn(3) {
+				case 0:
+					if i := strings.IndexAny(s, "0123456789"); i >= 0 {
+						s = s[:i] + gen.Pick(r, "\u0663", "\uff12", "\u0967") + s[i+1:]
+					}
+				case 1:
+					s += gen.Pick(r, "-\u03b2", ".\u00e9", "-\u0663", "\u0663")
+				default:
+					s = gen.Pick(r, "1.\u0663", "1.1\u0663", "\uff12.0", "1.0-\u03b2eta")
+				}
+			}
+			return s
+		}, func(r *rand.Rand, l []Ver) string {
 			if r.Intn(8) == 0 {
 				return "[" + fromList(r, l) + "]"
 			}
@@ -129,6 +146,18 @@ func Run(r *ev.Run, replay string) {
 		}
 	}
 	wg.Wait()
+	rejectedMu.Lock()
+	r.Count("maven_versions_rejected", int64(len(rejectedGlobal)))
+	seenRej := map[string]bool{}
+	for _, s := range rejectedGlobal {
+		if seenRej[s] || len(seenRej) >= 3 {
+			continue
+		}
+		seenRej[s] = true
+		_, err := semver.Maven.Parse(s)
+		r.Violation("C12:Maven:version-rejected", fmt.Sprintf("Maven: the generated version %q (to Maven every string is a version) is rejected by Parse (%v): it is dropped from every match result and cannot be ordered", s, err), Case{Sys: "Maven", Req: "(,)", List: []Ver{{V: s}, {V: "1.0"}}})
+	}
+	rejectedMu.Unlock()
 	for _, sg := range systems() {
 		r.Gate("nontrivial:"+sg.name, int64(n/20))
 		r.Gate("perm_differs_from_identity:"+sg.name, int64(n/4))
@@ -139,7 +168,26 @@ func Run(r *ev.Run, replay string) {
 	r.Gate("npm:non-range-requirement", 50)
 }
 
+// rejected collects generated Maven versions the library refuses to parse.
+var (
+	rejectedMu     sync.Mutex
+	rejectedGlobal []string
+)
+
 func generate(sg sysgen, rng *rand.Rand) Case {
+	c := generate1(sg, rng)
+	return c
+}
+
+func generate1(sg sysgen, rng *rand.Rand) Case {
+	var rejected []string
+	defer func() {
+		if len(rejected) > 0 {
+			rejectedMu.Lock()
+			rejectedGlobal = append(rejectedGlobal, rejected...)
+			rejectedMu.Unlock()
+		}
+	}()
 	n := 1 + rng.Intn(12)
 	sys := sg.sys.Semver()
 	var list []Ver
@@ -152,6 +200,13 @@ func generate(sg sysgen, rng *rand.Rand) Case {
 		}
 		seen[s] = true
 		v, err := sys.Parse(s)
+		if err != nil && sg.name == "Maven" {
+			// To Maven every string is a version, and the generator writes
+			// nothing but Maven versions: a rejected one cannot take part in
+			// any list, which is reported rather than skipped.
+			rejected = append(rejected, s)
+			continue
+		}
 		if err != nil && sg.name != "NPM" {
 			continue
 		}
